@@ -102,6 +102,7 @@ type Stats struct {
 	OrderDiff     int            `json:"order_diff"`
 	Messages      int            `json:"messages"`
 	ByPattern     map[string]int `json:"by_pattern"`
+	Areas         int            `json:"behaviours_with_a_covering_area_object"`
 	Nodwell       map[string]int `json:"by_nodwell"`
 	OrderExamples []string       `json:"order_examples"`
 }
@@ -131,6 +132,7 @@ func (s *Stats) Add(o *Stats) {
 	for k, v := range o.Classes {
 		s.Classes[k] += v
 	}
+	s.Areas += o.Areas
 	for k, v := range o.ByPattern {
 		s.ByPattern[k] += v
 	}
@@ -418,6 +420,27 @@ func (r *Runner) Run(bi int, b *Behaviour, st *Stats) ([]Mismatch, error) {
 		}
 		if v.Kind != '+' || v.Str != "OK" {
 			return nil, fmt.Errorf("live fence reply %s", v.String())
+		}
+	}
+	// every other behaviour: a non-point object of the roam collection whose rectangle covers every cell while its
+	// centre is twenty radii away - by the statement (distance between the two objects: the centres) it is nobody's
+	// neighbour and nothing about it is ever reported; a neighbour search that walks candidates by rectangle distance
+	// meets it first
+	if bi%2 == 1 {
+		minLat, maxLat, minLon, maxLon := 90.0, -90.0, 180.0, -180.0
+		for _, c := range r.o.Table.Cells {
+			minLat, maxLat = math.Min(minLat, c.LatF), math.Max(maxLat, c.LatF)
+			minLon, maxLon = math.Min(minLon, c.LonF), math.Max(maxLon, c.LonF)
+		}
+		rdeg := float64(r.o.Table.RadiusMM) / 1000 / 111320
+		top := minLat + 40*rdeg
+		if maxLon-minLon < 90 && top < 89 && top > maxLat+2*rdeg && minLon-0.01 > -180 && maxLon+0.01 < 180 {
+			areaID := ids[0] + "~area"
+			v, e := r.drv.Do("SET", key, areaID, "BOUNDS", ftoa(minLat-0.001), ftoa(minLon-0.01), ftoa(top), ftoa(maxLon+0.01))
+			if err = okInt(v, e, "SET area"); err != nil {
+				return nil, err
+			}
+			st.Areas++
 		}
 	}
 	needObj := r.has["hook"] || r.has["live"]
